@@ -4,6 +4,7 @@ import random
 from common import Driver, Report, ser_result, ser_diagram, ser_ty, wf_failure, lean_obligations, \
     err_class, tokname
 from core import Family, Gen, tok_expr, tok_ty, tok_box, spec_box, ty_l, ty_r
+from sums import SumGen, run_sum, sum_class, tok_sexpr, ser_sum_result
 
 PROP = "C04"
 TARGET = ["p", "q", "r"]
@@ -79,6 +80,26 @@ def real_functor(fam, obmap, armap, style):
     return m.Functor(ob=ob, ar=ar)
 
 
+def rand_bound(r, n):
+    """A Python slice bound: omitted, in range, negative, or beyond either end."""
+    return None if r.random() < 0.2 else r.randint(-n - 2, n + 2)
+
+
+def real_slice_answer(F, d, i, j):
+    """Same line as the driver's `functorslice`: F(d[i:j]) | i' j' | F(d)[i':j']."""
+    n = len(d.boxes)
+    lo, hi, _ = slice(i, j).indices(n)
+    lens = []
+    for bx in d.boxes:
+        try:
+            lens.append(len(F(bx).boxes))
+        except Exception:  # noqa  (the model counts 0 boxes for an image that raises)
+            lens.append(0)
+    i2, j2 = sum(lens[:lo]), sum(lens[:hi])
+    return "%s | %d %d | %s" % (ser_result(lambda: F(d[i:j])), i2, j2,
+                                ser_result(lambda: F(d)[i2:j2])), (lo, hi, i2, j2)
+
+
 def has_wide_swap(obmap, boxes):
     for b in boxes:
         if b["kind"] == "s" and all(len(img_ty(obmap, [o])) >= 2 for o in b["dom"]):
@@ -90,8 +111,13 @@ def run(tier, seed, replay=None):
     rep = Report(PROP, tier, seed)
     rep.rule = ("random monoidal/rigid diagrams (0-6 boxes incl. swaps, cups, caps, daggered boxes, "
                 "winding numbers) and random functors: object images of length 0-3, box images 0-4 "
-                "boxes deep, given as dict or callable; ~8% ill-typed box maps; non-trivial = "
-                "diagram of >= 2 boxes and at least one object image of length != 1")
+                "boxes deep, given as dict or callable; ~8% ill-typed box maps; slices with arbitrary "
+                "Python bounds (omitted, negative, beyond the ends, start > stop); formal sums of 0-4 "
+                "terms; non-trivial = diagram of >= 2 boxes and at least one object image of "
+                "length != 1")
+    rep.partial = ["F_dagger, F_sum_dagger: proved under the box-level dagger law only (false as == for "
+                   "Swap(x, y) with two multi-wire images: finding F6, decided witness F6_swap_witness)",
+                   "images of bubbles (cat.py:836-838) are not modelled"]
     rep.lean = lean_obligations(PROP, thorough=(tier == "thorough"))
     n_cases = 150 if tier == "quick" else 6000
     rng = random.Random(seed)
@@ -107,7 +133,15 @@ def run(tier, seed, replay=None):
             e2, _ = g.diagram(depth=r.choice([0, 1, 2, 3]))
             eb, _ = g.diagram(dom=scans[-1], depth=r.choice([0, 1, 2, 3]))
             edd = g.grow(scans[0], r.choice([0, 1, 2]))[0]
-            allboxes = e[3] + e2[3] + eb[3] + edd[3]
+            sg = SumGen(g)
+            sterms, _ = sg.terms(scans[0], r.choice([0, 1, 1, 2, 3]), cod=scans[-1])
+            tterms, tcod = sg.terms(scans[-1], r.choice([0, 1, 1, 2]))
+            s_terms = ([e] if r.random() < 0.85 else []) + sterms
+            explicit = (not s_terms) or r.random() < 0.3
+            S = ("smk", s_terms, scans[0] if explicit else None, scans[-1] if explicit else None)
+            S2 = ("smk", sterms, scans[0], scans[-1])
+            T = ("smk", tterms, scans[-1], tcod)
+            allboxes = e[3] + e2[3] + eb[3] + edd[3] + [b for t in sterms + tterms for b in t[3]]
             malformed = (k % 12 == 11)
             obmap, armap = gen_functor(r, famn == "rigid", allboxes, malformed)
             style = ("callable", "dict", "total", "dict")[k % 4]
@@ -145,6 +179,30 @@ def run(tier, seed, replay=None):
                 rty = "err " + err_class(exc)
             if rty != mty:
                 rep.disagree("functorty", case, rty, mty)
+            # ---- slices with arbitrary Python bounds, through the model
+            nb = len(d.boxes)
+            pi, pj = rand_bound(r, nb), rand_bound(r, nb)
+            sline = "functorslice %s %s %s %s" % (ftok, tok_expr(e), "N" if pi is None else pi,
+                                                  "N" if pj is None else pj)
+            smodel = drv.ask(sline)
+            sreal, (lo, hi, i2, j2) = real_slice_answer(F, d, pi, pj)
+            if sreal != smodel:
+                rep.disagree("functorslice", dict(case, bounds=repr((pi, pj))), sreal[:600], smodel[:600])
+            rep.count("slice:" + ("empty" if lo >= hi else "nonempty") +
+                      ("/moved" if (i2, j2) != (lo, hi) else "/same"))
+            rep.count("slicebound:" + ("omitted" if pi is None or pj is None else
+                                       "negative" if pi < 0 or pj < 0 else
+                                       "beyond" if pi > nb or pj > nb else "plain"))
+            rep.case(sline, nontriv and lo < hi)
+            # ---- formal sums, through the model
+            uline = "functorsum %s %s" % (ftok, tok_sexpr(S))
+            umodel = drv.ask(uline)
+            ureal = ser_sum_result(lambda: F(run_sum(fam, S)))
+            if ureal != umodel:
+                rep.disagree("functorsum", dict(case, sum=repr(S)[:1500]), ureal[:600], umodel[:600])
+            rep.count("sumterms:%d" % len(s_terms))
+            rep.count("sumresult:" + (ureal.split(" ")[0] if ureal.startswith("ok") else ureal.split(" ")[1]))
+            rep.case(uline, nontriv and len(s_terms) >= 2)
             if malformed or value[0] is None:
                 if value[0] is None and not malformed:
                     rep.fail("functor_raises:" + real.split(" ")[1], case, real)
@@ -181,6 +239,19 @@ def run(tier, seed, replay=None):
             lens = [len(F(bx).boxes) for bx in d.boxes]
             law("slice", lambda: F(d[i:j]), lambda: F(d)[sum(lens[:i]):sum(lens[:j])]
                 if i < j else F(d[i:j]))
+            law("slice_pybounds", lambda: F(d[pi:pj]), lambda: F(d)[i2:j2])
+            Sv, S2v, Tv = run_sum(fam, S), run_sum(fam, S2), run_sum(fam, T)
+            mksum = sum_class(fam)
+            law("sum_image", lambda: F(Sv),
+                lambda: mksum([F(t) for t in Sv.terms], F(Sv.dom), F(Sv.cod)))
+            law("sum_empty", lambda: F(mksum([], d.dom, d.cod)), lambda: mksum([], F(d.dom), F(d.cod)))
+            # the three binary laws on sums in turn (each maps up to 4 x 3 products twice)
+            if k % 3 == 0:
+                law("sum_add", lambda: F(Sv + S2v), lambda: F(Sv) + F(S2v))
+            elif k % 3 == 1:
+                law("sum_then", lambda: F(Sv >> Tv), lambda: F(Sv) >> F(Tv))
+            else:
+                law("sum_tensor", lambda: F(Sv @ Tv), lambda: F(Sv) @ F(Tv))
             dd = fam.run(edd)
             if dd.cod == d.cod:
                 law("sum", lambda: F(d + dd), lambda: F(d) + F(dd))
